@@ -580,11 +580,11 @@ def ft(vfile, d):
     return 0.5 * 10.0 ** (-(d if p is None else p))
 
 
-def fits_file(D, scale):
+def fits_file(D, scale, strict=False):
     """Every length of the geometry can be printed in its 10 columns (with as many decimals as fit), in file
     units."""
     def ok(v, d):
-        return v is None or fit_precision(v / scale, d) is not None
+        return v is None or (fit_precision(v / scale, d) == d if strict else fit_precision(v / scale, d) is not None)
     return (all(ok(x, 2) and ok(y, 2) for _, x, y in D['nodes'])
             and all(ok(c[3], 2) and ok(c[4], 2) for c in D['columns'])
             and all(ok(b, 2) and ok(c, 2) for _, b, c in D['layers'])
@@ -997,7 +997,7 @@ def evaluate(spec, tier='thorough'):
     else:
         names = list(STYLES)[:4 if tier == 'thorough' else 2]
     img = file_image(D)
-    if spec.get('over'):
+    if not fits_file(D, scale, strict=True):
         names = []      # a Fortran program cannot print these values in F10.2: there is no reference-written file
     base_clauses = None
     for sname in names:
